@@ -1,9 +1,11 @@
 mod alloc_mon;
+mod c06;
 mod c07;
 mod c08;
 mod c12x;
 mod c13;
 mod c14;
+mod c16;
 mod c17;
 mod canon;
 mod dbwalk;
@@ -99,7 +101,9 @@ fn main() {
         "c02" => rt::main(&a, gen_dom::Fmt::Xml),
         "domops" => domops::main(&a),
         "sstr" => sstr::main(&a),
+        "c16" => c16::main(&a),
         "c17" => c17::main(&a),
+        "c06" => c06::main(&a),
         "c07" => c07::main(&a),
         "c08" => c08::main(&a),
         "c13" => c13::main(&a),
